@@ -92,6 +92,10 @@ class _Expr(ast.NodeTransformer):
 
     def visit_Compare(self, node: ast.Compare):
         self.generic_visit(node)
+        # K15 `None is not x` / `1 == n` -> constant on the right (symmetric operators only)
+        if len(node.ops) == 1 and isinstance(node.ops[0], (ast.Is, ast.IsNot, ast.Eq, ast.NotEq)) and isinstance(node.left, ast.Constant) \
+                and not isinstance(node.comparators[0], ast.Constant) and (node.left.value is None or isinstance(node.ops[0], (ast.Is, ast.IsNot))):
+            node.left, node.comparators = node.comparators[0], [node.left]
         # K7
         if len(node.ops) == 1 and isinstance(node.ops[0], (ast.In, ast.NotIn)) and isinstance(node.comparators[0], ast.List) \
                 and all(isinstance(e, ast.Constant) for e in node.comparators[0].elts):
